@@ -61,10 +61,10 @@ func (g *gen) pickGovActor() int {
 	if g.avoid {
 		return g.pickOth()
 	}
-	switch g.r.Intn(5) {
-	case 0, 1:
+	switch g.r.Intn(6) {
+	case 0:
 		return g.pickSrc()
-	case 2, 3:
+	case 1:
 		return g.pickTgt()
 	}
 	return g.pickOth()
@@ -407,8 +407,8 @@ func (h *Hist) entries(a, v int) int {
 	return 0
 }
 
-// runWitnesses: the concrete histories behind the Coq refutations (C14_gov_block_refuted,
-// C14_index71_refuted), replayed on the real application.
+// runWitnesses: the histories of the fixed findings C14-1 / C14-2 (the Coq examples ex_gov / ex_init),
+// as regression histories on the real application.
 func runWitnesses(seed int64, cw *CaseWriter, rep *lib.Report) {
 	// 1. proposer in the deposit period, depositor and voter in the voting period: all accepted;
 	//    the deposit refund then goes to the emptied source
@@ -612,5 +612,39 @@ func finish(h *Hist, rep *lib.Report, key string) {
 	rep.Case(key, true)
 	for t := range h.tags {
 		rep.Count("history-with:" + t)
+	}
+}
+
+// runMaturityWindow: a migration in the very block in which one of the source's unbonding /
+// redelegation entries matures (block time >= completion time, staking end blocker not yet run), just
+// before it, and just after: the queue pair must have been renamed so that the end blocker pays the target.
+func runMaturityWindow(seed int64, cw *CaseWriter, rep *lib.Report, r *lib.Rand) {
+	offsets := []int64{0, 1, 2 * sec, 5*sec - 1, -1, 5 * sec} // tx time - completion time
+	for i, off := range offsets {
+		h := NewHist(seed*1000+940+int64(i), cw, rep)
+		h.setupBasic()
+		v0, v1 := val0+i%3, val0+(i+1)%3
+		h.Exec(Op{Kind: "delegate", A: 0, V: v0, Amt: fx(3000)})
+		h.Exec(Op{Kind: "delegate", A: 1, V: v0, Amt: fx(3000)})
+		h.Exec(Op{Kind: "block", Dt: 5 * sec})
+		h.Exec(Op{Kind: "undelegate", A: 0, V: v0, Amt: fx(300)})
+		h.Exec(Op{Kind: "undelegate", A: 1, V: v0, Amt: fx(200)}) // shares the slice
+		h.Exec(Op{Kind: "redelegate", A: 0, V: v0, W: v1, Amt: fx(250)})
+		var mark int64
+		for _, q := range h.snap().UbdQ {
+			mark = q.T
+		}
+		h.Exec(Op{Kind: "block", Dt: 2 * day})
+		h.Exec(Op{Kind: "undelegate", A: 0, V: v0, Amt: fx(100)}) // a later entry that must stay queued
+		// tx time = block time + 5s  =>  block time = mark + off - 5s
+		h.Exec(Op{Kind: "block", Dt: mark + off - 5*sec - ns(h.c.Time)})
+		h.Exec(mig(0, tgt0, "tx"))
+		h.Exec(Op{Kind: "block", Dt: 5 * sec})
+		h.Exec(Op{Kind: "block", Dt: 5 * sec})
+		h.Exec(Op{Kind: "undelegate", A: tgt0, V: v0, Amt: fx(50), Mode: "must"})
+		h.Exec(Op{Kind: "block", Dt: 21 * day})
+		h.Exec(Op{Kind: "block", Dt: 5 * sec})
+		rep.Count(fmt.Sprintf("maturity-window:offset=%d", off))
+		finish(h, rep, fmt.Sprintf("scenario-maturity-%d", i))
 	}
 }
